@@ -32,7 +32,7 @@ ASSUMPTIONS = ["hash seeds are sampled (2^32 values), not enumerated",
                "error messages of rejected forms are compared too (same bytes), which is slightly more than the statement demands of results"]
 BUDGET = {"quick": 1100, "thorough": 40000}
 REQUIRED_LABELS = ["kind:seeds", "kind:history", "kind:threads", "kind:stress", "history:repeat-after-other", "history:regen", "threads:switches>=3",
-                   "seeds:accepted", "feature:no-headers", "feature:or-other-translated", "feature:namespaces", "feature:single-colon-headers", "feature:invalid-choice-headers"]
+                   "seeds:accepted", "feature:no-headers", "feature:or-other-translated", "feature:namespaces", "feature:single-colon-headers", "feature:invalid-choice-headers", "feature:instance-in-label", "feature:late-language-codes", "kind:cold"]
 
 REPO = os.environ.get("VERIF_REPO", "/repo")
 HERE = os.path.dirname(os.path.dirname(os.path.dirname(os.path.abspath(__file__))))
@@ -126,7 +126,10 @@ def _job(form, g, with_headers=True):
 
 def _form(draw, g_holder):
     prof = dict(gen.PROFILES["broad"], max_rows=14, p_or_other=0.25, p_multilang=0.6, p_extra_cols=0.5, p_external=0.08, settings="some",
-                p_extra_sheets=0.2, p_choice_filter=0.3, p_randomize=0.2, p_search=0.05, p_trigger=0.1, p_default=0.2, text_ctl=False)
+                p_extra_sheets=0.2, p_choice_filter=0.3, p_randomize=0.2, p_search=0.05, p_trigger=0.1, p_default=0.2, text_ctl=False,
+                # the same path may be a group in one form and a repeat in the next; few distinct names so that paths coincide across forms
+                neutral_container_names=True, odd_names=0.0, p_group=0.25, p_repeat=0.25, p_ref=0.9, p_logic=0.7, p_text_ref=0.4,
+                p_instance_expr=0.1)
     g = gen.G(draw, prof)
     form = gen.build_form(draw, prof, g=g)
     form.pop("_langs", None)
@@ -143,6 +146,22 @@ def _form(draw, g_holder):
         feats.add("misspelled-sheets")
     if any("or_other" in n["c"].get("type", "") for n, _ in model.walk(form["nodes"])) and g.langs:
         feats.add("or-other-translated")
+    if form.get("lists") and g.p("_", 0.2):
+        # a label with two instance() expressions (documented dynamic label); the same text recurs across forms and calls
+        ln = form["lists"][0]["name"]
+        qs_ = [n for n, _ in model.walk(form["nodes"]) if n["k"] == "q" and "label" in n["c"] and "calculation" not in n["c"] and "trigger" not in n["c"]
+               and n["c"].get("type", "").split(" ")[0] in ("text", "integer", "note", "date")]
+        if qs_:
+            for n in qs_[: g.integer(1, 2)]:
+                n["c"]["label"] = f"First instance('{ln}')/root/item[name = 'c1']/label then instance('{ln}')/root/item[name = 'c2']/label end"
+            feats.add("instance-in-label")
+    if g.p("_", 0.15):
+        # languages whose codes sit late in the registry files
+        for n, _ in model.walk(form["nodes"]):
+            if n["k"] == "q" and "label" in n["c"] and "${" not in n["c"]["label"] and g.p("_", 0.5):
+                n["c"]["label::Zulu (zu)"] = n["c"].pop("label")
+                n["c"]["label::Filipino (fil)"] = "f"
+        feats.add("late-language-codes")
     if form.get("lists") and g.p("_", 0.25):
         # several extra choices columns that cannot be element names: each gets its own warning, in sheet order
         cols = g.shuffled(["geo code", "old name", "1col", "a b c", "x y", "9", "per cent%"])[: g.integer(2, 5)]
@@ -185,6 +204,9 @@ def _cases(draw):
         steps = [{"f": g0.integer(0, len(forms) - 1), "w": g0.integer(0, 3), "pretty": g0.p("_", 0.3), "regen": g0.pick([0, 0, 1, 2, 4])}
                  for _ in range(g0.integer(3, 9))]
         return {"kind": "history", "forms": forms, "steps": steps}
+    if kind_n == 18 and g0.p("_", 0.5):
+        # the very first conversions of a brand-new process, run concurrently (lazy one-time initialisation races)
+        return {"kind": "cold", "forms": forms, "threads": g0.pick([4, 6, 8]), "rounds": 1}
     if kind_n < 19:
         k = g0.integer(2, 4)
         jobs = [g0.integer(0, len(forms) - 1) for _ in range(k)]
@@ -297,6 +319,9 @@ def evaluate(case) -> Outcome:
             if triple(res) != triple(ref):
                 what, detail = describe(triple(ref), triple(res))
                 out.fail("C14.same-after-history", what, f"step {i} (form {stp['f']} in worker {stp['w']}): {detail}")
+            if res.get("regen_error"):
+                out.checked("C14.regeneration-idempotent")
+                out.fail("C14.regeneration-idempotent", "raises", f"step {i}: to_xml() succeeded once and then raised: {res['regen_error']}")
             if res.get("regen"):
                 regen_done = True
                 out.checked("C14.regeneration-idempotent")
@@ -312,6 +337,23 @@ def evaluate(case) -> Outcome:
         if regen_done:
             out.label("history:regen")
         out.nontrivial = repeat_after_other and regen_done
+        return out
+    if kind == "cold":
+        jobs = [mkjob(fd) for fd in forms]
+        cold = Worker(0)
+        try:
+            res = cold.ask({"op": "stress", "jobs": jobs, "threads": case["threads"], "rounds": case["rounds"]})
+        finally:
+            cold.close()
+        common_checks(out, res, "cold")
+        for per_thread in res["runs"]:
+            for r, ji in per_thread:
+                ref = fresh_answer(jobs[ji], cache)
+                out.checked("C14.same-on-cold-start")
+                if r is None or triple(r) != triple(ref):
+                    what, detail = describe(triple(ref), triple(r or {"status": "missing"}))
+                    out.fail("C14.same-on-cold-start", what, detail)
+        out.nontrivial = True
         return out
     w = ws[case.get("w", 0) % len(ws)]
     if kind == "threads":
